@@ -326,6 +326,10 @@ func (c *Config) UnmarshalYAML(unmarshal func(any) error) error {
 		c.Global = &GlobalConfig{}
 		*c.Global = DefaultGlobalConfig()
 	}
+	// The same holds for an http_config key that was opened but left empty.
+	if c.Global.HTTPConfig == nil {
+		c.Global.HTTPConfig = DefaultGlobalConfig().HTTPConfig
+	}
 
 	if c.Global.SlackAppToken != "" && len(c.Global.SlackAppTokenFile) > 0 {
 		return errors.New("at most one of slack_app_token & slack_app_token_file must be configured")
@@ -707,6 +711,9 @@ func (c *Config) UnmarshalYAML(unmarshal func(any) error) error {
 // references a receiver not in the given map.
 func checkReceiver(r *Route, receivers map[string]struct{}) error {
 	for _, sr := range r.Routes {
+		if sr == nil {
+			return errors.New("empty route in routes list")
+		}
 		if err := checkReceiver(sr, receivers); err != nil {
 			return err
 		}
